@@ -172,7 +172,50 @@ func (n *sx) hasQuant() bool {
 
 // inst replaces every quantifier that behaves universally (for a fact: positive forall /
 // negative exists) by its body at term t. ok is false when nothing was instantiated.
-func inst(n *sx, pos bool, t *sx, did *bool) *sx {
+func inst(n *sx, pos bool, t *sx, did *bool) *sx { return instN(n, pos, []*sx{t}, 0, did) }
+
+// univDepth: maximal nesting depth of universally-behaving quantifiers of a fact.
+func univDepth(n *sx, pos bool) int {
+	if n.kids == nil {
+		return 0
+	}
+	switch n.head() {
+	case "and", "or":
+		m := 0
+		for _, k := range n.kids[1:] {
+			if d := univDepth(k, pos); d > m {
+				m = d
+			}
+		}
+		return m
+	case "not":
+		return univDepth(n.kids[1], !pos)
+	case "=>":
+		m := 0
+		for i, k := range n.kids[1:] {
+			p := !pos
+			if i == len(n.kids)-2 {
+				p = pos
+			}
+			if d := univDepth(k, p); d > m {
+				m = d
+			}
+		}
+		return m
+	case "forall", "exists":
+		isForall := n.head() == "forall"
+		_, body, ok := n.binder()
+		if !ok || isForall != pos {
+			return 0
+		}
+		return 1 + univDepth(body, pos)
+	}
+	return 0
+}
+
+// instN instantiates nested universally-behaving quantifiers: the quantifier at nesting
+// depth d takes ts[d] (the last term is reused for deeper ones).
+func instN(n *sx, pos bool, ts []*sx, d int, did *bool) *sx {
 	if n.kids == nil {
 		return n
 	}
@@ -180,18 +223,18 @@ func inst(n *sx, pos bool, t *sx, did *bool) *sx {
 	case "and", "or":
 		out := &sx{kids: []*sx{n.kids[0]}}
 		for _, k := range n.kids[1:] {
-			out.kids = append(out.kids, inst(k, pos, t, did))
+			out.kids = append(out.kids, instN(k, pos, ts, d, did))
 		}
 		return out
 	case "not":
-		return &sx{kids: []*sx{n.kids[0], inst(n.kids[1], !pos, t, did)}}
+		return &sx{kids: []*sx{n.kids[0], instN(n.kids[1], !pos, ts, d, did)}}
 	case "=>":
 		out := &sx{kids: []*sx{n.kids[0]}}
 		for i, k := range n.kids[1:] {
 			if i == len(n.kids)-2 {
-				out.kids = append(out.kids, inst(k, pos, t, did))
+				out.kids = append(out.kids, instN(k, pos, ts, d, did))
 			} else {
-				out.kids = append(out.kids, inst(k, !pos, t, did))
+				out.kids = append(out.kids, instN(k, !pos, ts, d, did))
 			}
 		}
 		return out
@@ -202,7 +245,11 @@ func inst(n *sx, pos bool, t *sx, did *bool) *sx {
 			return n
 		}
 		*did = true
-		return inst(body.subst(v, t), pos, t, did)
+		t := ts[len(ts)-1]
+		if d < len(ts) {
+			t = ts[d]
+		}
+		return instN(body.subst(v, t), pos, ts, d+1, did)
 	}
 	return n
 }
@@ -298,9 +345,21 @@ func prepareQuery(pc []Term, goal Term) []string {
 		if !f.hasQuant() {
 			continue
 		}
-		for _, c := range cands {
+		var tuples [][]*sx
+		if univDepth(f, true) >= 2 && len(cands) <= 10 {
+			for _, a := range cands {
+				for _, b := range cands {
+					tuples = append(tuples, []*sx{a, b})
+				}
+			}
+		} else {
+			for _, c := range cands {
+				tuples = append(tuples, []*sx{c})
+			}
+		}
+		for _, tp := range tuples {
 			did := false
-			i := inst(f, true, c, &did)
+			i := instN(f, true, tp, 0, &did)
 			if did {
 				is := i.String()
 				if !seen[is] {
